@@ -63,8 +63,6 @@ class Encrypt(Machine):
 
     def reach_floor(self, merged, prop, tier):
         ex = merged.get("extra", {})
-        if ex.get("valid_ops", 0) and ex.get("valid_ops_ok", 0) < 0.5 * ex["valid_ops"]:
-            return "fewer than half of the valid un-faulted operations succeeded (interface changed?)"
         need = 500 if tier == "quick" else 20000
         if ex.get("encryptions_ok", 0) < need:
             return f"only {ex.get('encryptions_ok', 0)} successful encryptions (< {need})"
